@@ -160,10 +160,10 @@ class Top(YowLayer):
 
 class Rig(object):
     def __init__(self, choices=(), upper=(Top,), config=None, server=None, trace_lines=False, props=None, max_steps=300000,
-                 profile_name="verif", write_config=None, profile=None):
+                 profile_name="verif", write_config=None, profile=None, preempt=None):
         install()
         S.ALL_LOCKS[:] = []
-        self.sched = S.Scheduler(choices, TRACE_FILES, trace_lines=trace_lines, max_steps=max_steps)
+        self.sched = S.Scheduler(choices, TRACE_FILES, trace_lines=trace_lines, max_steps=max_steps, preempt=preempt)
         S.SCHED = self.sched
         FakeDispatcher.rig = self
         self.dispatchers = []
